@@ -12,6 +12,8 @@ structure DSt where
   handles : List Nat := []           -- handle of the object at each pool position
   xids    : List (Nat × Bool) := []  -- (handle, is a FixedArray) of each external block, by block number
   labels  : List Nat := []           -- labels[l] = creation number of the Storage printed as S<l>
+  bags    : List (List Nat) := [[], [], [], [], []]   -- handles held in the std::vector<X> of each kind, in order
+  caps    : List Nat := [0, 0, 0, 0, 0]               -- capacity() of those vectors
 
 def posOf (d : DSt) (k : Nat) : Option Nat := d.handles.idxOf? k
 def xposOf (d : DSt) (x : Nat) : Option (Nat × Bool) :=
@@ -28,9 +30,22 @@ def statusStr : Err → String
   | .sizeMismatch => "exc:size_mismatch"
   | .invalidDimension => "exc:invalid_dimension"
   | .invalidOperation => "exc:invalid_operation"
+  | .indexOutOfBounds => "exc:index_out_of_bounds"
+  | .linkUnderflow => "exc:invalid_operation"
   | .fault => "fault"
   | .badAccess => "fault"
   | .badOp => "bad-op"
+
+def kindIdx : Kind → Nat
+  | .vec => 0 | .mat => 1 | .avec => 2 | .symm => 3 | .tri => 4
+
+def kindChar : Kind → String
+  | .vec => "v" | .mat => "m" | .avec => "a" | .symm => "s" | .tri => "t"
+
+/-- suffix of the creation commands: `new`, `newm`, `newa`, `news`, `newt` -/
+def kindOfSuffix : String → Option Kind
+  | "" => some .vec | "m" => some .mat | "a" => some .avec | "s" => some .symm | "t" => some .tri
+  | _ => none
 
 /-- labels in order of first discovery, objects scanned by ascending handle -/
 def discover (d : DSt) : DSt :=
@@ -41,6 +56,11 @@ def discover (d : DSt) : DSt :=
     | none => ls) d.labels
   { d with labels := labels }
 
+def dimStr (o : Obj) (a b : Nat) : String :=
+  match o.kind with
+  | .mat => s!"{a}x{b}"
+  | _ => s!"{a}"
+
 def objStr (d : DSt) (k : Nat) (o : Obj) : String :=
   let s := d.st
   let stPart := match o.storage with
@@ -49,11 +69,12 @@ def objStr (d : DSt) (k : Nat) (o : Obj) : String :=
       match labelOf d σ with
       | none => "st=? nl=!"
       | some l =>
-        match nLinksOf s σ with
-        | .ok n => s!"st=S{l} nl={n}"
-        | .error _ => s!"st=S{l} nl=!"
+        match nLinksOf s σ, s.heap[σ]? with
+        | .ok n, some h => s!"st=S{l} nl={n} sz={h.size}"
+        | _, _ => s!"st=S{l} nl=!"
+  let lenS := dimStr o o.len o.len1
   let atPart := match o.region with
-    | .null => s!" at=0 L=- len={o.len}"
+    | .null => s!" at=0 L=- len={lenS}"
     | r =>
       let (wh, live) : String × Bool := match r with
         | .sto σ => match labelOf d σ, s.heap[σ]? with
@@ -63,13 +84,14 @@ def objStr (d : DSt) (k : Nat) (o : Obj) : String :=
           | some (h, _), some e => (s!"X{h}+{o.off}", e.live)
           | _, _ => ("?", false)
         | .null => ("0", false)
-      let base := s!" at={wh} L={if live then 1 else 0} len={o.len}"
-      if o.len = 0 then base else
+      let base := s!" at={wh} L={if live then 1 else 0} len={lenS} str={dimStr o o.stride o.stride1}"
+      let gi := if o.kind.active && o.storage.isSome then s!" gi={o.off}" else ""
+      if (cells o).isEmpty then base ++ gi else
         let vs := match readView s o with
           | .ok vs => join (vs.map toString)
           | .error _ => "!"
-        base ++ s!" str={o.stride} v={vs}"
-  s!" {k}({stPart}{atPart})"
+        base ++ gi ++ s!" v={vs}"
+  s!" {k}(K={kindChar o.kind} {stPart}{atPart})"
 
 def observe (d : DSt) (status : String) : DSt × String :=
   let d := discover d
@@ -77,11 +99,11 @@ def observe (d : DSt) (status : String) : DSt × String :=
   let xs := (d.xids.zip d.st.exts).mergeSort (fun a b => a.1.1 ≤ b.1.1)
   let os := String.join (objs.map (fun p => objStr d p.1 p.2))
   let es := String.join (xs.map (fun p => s!" X{p.1.1}:{if p.2.live then 1 else 0}:{join (p.2.vals.map toString)}"))
-  (d, s!"{status} | n={nStorageObjects d.st} |{os} |{es}")
+  (d, s!"{status} | n={nStorageObjects d.st} g={d.st.gradReg} f={d.st.failIn} |{os} |{es}")
 
 /-- data that is going to be read or written must be addressable (harness: `usable`) -/
 def usable (s : St) (o : Obj) : Bool :=
-  o.len = 0 || (match readView s o with | .ok _ => true | .error _ => false)
+  (cells o).isEmpty || (match readView s o with | .ok _ => true | .error _ => false)
 
 def usableAt (d : DSt) (p : Nat) : Bool :=
   match d.st.pool[p]? with
@@ -90,54 +112,218 @@ def usableAt (d : DSt) (p : Nat) : Bool :=
 
 def nat? (i : Int) : Option Nat := if 0 ≤ i then some i.toNat else none
 
-/-- harness `slice_ok` -/
-def sliceOk (d : DSt) (pb : Nat) (lo hi st : Int) : Bool :=
-  match d.st.pool[pb]? with
-  | some b => let len : Int := b.len
-              decide (len > 0 ∧ st ≥ 1 ∧ st ≤ 8 ∧ lo ≥ 0 ∧ lo < len ∧ hi ≥ 0 ∧ hi < len ∧ lo ≤ hi + 1)
-  | none => false
+def kindAt (d : DSt) (p : Nat) : Option Kind := (d.st.pool[p]?).map (·.kind)
 
-/-- run a primitive op that appends a new object with handle `k` -/
+def inBag (d : DSt) (k : Nat) : Bool := d.bags.any (·.contains k)
+
+/-! ### view requests: `<fn> args`, the harness precondition (`view_ok`) -/
+
+def viewNames : List String := ["sl", "row", "col", "sub", "idx", "tr", "diag", "sod", "rsh", "perm"]
+
+def parseView (fn : String) (a : List Int) : Option ViewFn :=
+  match fn, a with
+  | "sl", [lo, hi, st] => some (.slice lo hi st)
+  | "row", [i, lo, hi, st] => some (.row i lo hi st)
+  | "col", [lo, hi, st, j] => some (.col lo hi st j)
+  | "sub", [lo0, hi0, st0, lo1, hi1, st1] => some (.sub lo0 hi0 st0 lo1 hi1 st1)
+  | "idx", [i] => some (.idx i)
+  | "tr", [] => some .transpose
+  | "diag", [k] => some (.diag k)
+  | "sod", [i0, i1] => some (.subDiag i0 i1)
+  | "rsh", [d0, d1] => some (.reshape d0 d1)
+  | "perm", [i0, i1] => some (.permute i0 i1)
+  | _, _ => none
+
+def rangeOk (len : Nat) (lo hi st : Int) : Bool :=
+  let l : Int := len
+  decide (st ≥ 1 ∧ st ≤ 8 ∧ lo ≥ 0 ∧ lo < l ∧ hi ≥ 0 ∧ hi < l)
+
+def small (x : Int) : Bool := decide (-20 ≤ x ∧ x ≤ 20)
+
+/-- harness `view_ok`: the source has elements, the function exists for its class, indices address the source
+    (the library does not test them); ranges may be reversed, diagonals / extents / sub-matrix bounds may be wrong -/
+def viewOk (s : St) (b : Obj) (f : ViewFn) : Bool :=
+  if b.len = 0 || (b.kind == .mat && b.len1 = 0) || b.region == .null then false else
+  if b.storage.isNone && !usable s b then false else
+  match f, b.kind with
+  | .slice lo hi st, .vec => rangeOk b.len lo hi st
+  | .slice lo hi st, .avec => rangeOk b.len lo hi st
+  | .row i lo hi st, .mat => decide (0 ≤ i ∧ i < (b.len : Int)) && rangeOk b.len1 lo hi st
+  | .col lo hi st j, .mat => decide (0 ≤ j ∧ j < (b.len1 : Int)) && rangeOk b.len lo hi st
+  | .sub lo0 hi0 st0 lo1 hi1 st1, .mat => rangeOk b.len lo0 hi0 st0 && rangeOk b.len1 lo1 hi1 st1
+  | .idx i, .mat => decide (0 ≤ i ∧ i < (b.len : Int))
+  | .transpose, .mat => true
+  | .diag k, .mat => small k && !(b.len = b.len1 && k.natAbs = b.len)
+  | .diag k, .symm => small k && k.natAbs ≠ b.len
+  | .diag k, .tri => small k && k.natAbs ≠ b.len
+  | .subDiag i0 i1, .mat => small i0 && small i1
+  | .subDiag i0 i1, .symm => small i0 && small i1
+  | .subDiag i0 i1, .tri => small i0 && small i1
+  | .reshape d0 d1, .vec => small d0 && small d1
+  | .permute i0 i1, .mat => small i0 && small i1
+  | _, _ => false
+
+/-- class of the object a view function returns -/
+def viewKind (src : Kind) : ViewFn → Kind
+  | .slice .. => src
+  | .subDiag .. => src
+  | .row .. => .vec
+  | .col .. => .vec
+  | .idx .. => .vec
+  | .diag .. => .vec
+  | _ => .mat
+
+/-! ### running model operations -/
+
+/-- run a primitive op that appends a new object with handle `k` (a constructor that throws leaves no object) -/
 def doNew (d : DSt) (k : Nat) (op : Op) : DSt × String :=
   match step d.st op with
-  | .ok s' => observe { d with st := s', handles := d.handles ++ [k] } "ok"
+  | .ok s' => if s'.thrown then observe { d with st := s' } "exc:bad_alloc"
+              else observe { d with st := s', handles := d.handles ++ [k] } "ok"
   | .error .badOp => (d, "bad-op")
   | .error e => observe d (statusStr e)
 
 /-- run a primitive op on existing objects -/
 def doOp (d : DSt) (op : Op) : DSt × String :=
   match step d.st op with
-  | .ok s' => observe { d with st := s' } "ok"
+  | .ok s' => observe { d with st := s' } (if s'.thrown then "exc:bad_alloc" else "ok")
   | .error .badOp => (d, "bad-op")
   | .error e => observe d (statusStr e)
 
-/-- a statement with a temporary: `mk` constructs it (appended at position `p`), `body` uses it, and it is destroyed
-    at the end of the full expression whether or not `body` threw -/
-def withTemp (d : DSt) (mk : List Op) (body : Nat → List Op) : DSt × String :=
+/-- run ops until one throws: the state at that point (the last good state for a rejected request, the state the
+    operation left for `std::bad_alloc`) and the status -/
+def runOps (s : St) : List Op → St × Option String
+  | [] => (s, none)
+  | op :: ops => match step s op with
+    | .ok s' => if s'.thrown then (s', some "exc:bad_alloc") else runOps s' ops
+    | .error e => (s, some (statusStr e))
+
+/-- destroy every object at a position ≥ `p`, last first (temporaries at the end of the full expression, by-value
+    parameters at the end of the call, also during unwinding) -/
+def dropFrom (s : St) (p : Nat) : Except Err St :=
+  let n := s.pool.length - p
+  (List.range n).foldl (fun (acc : Except Err St) _ =>
+    match acc with
+    | .error e => .error e
+    | .ok s1 => step s1 (.destroy (s1.pool.length - 1))) (.ok s)
+
+/-- a statement with temporaries: `mk p` constructs them (appended from position `p` on), `body p` uses them; they
+    are destroyed at the end of the full expression whether or not something threw -/
+def withTemp (d : DSt) (mk : Nat → List Op) (body : Nat → List Op) : DSt × String :=
   let p := d.st.pool.length
-  let rec go (s : St) : List Op → Except Err St
-    | [] => .ok s
-    | op :: ops => match step s op with
-      | .ok s' => go s' ops
+  let (s1, e1) := runOps d.st (mk p)
+  let (s2, err) := match e1 with
+    | some e => (s1, some e)
+    | none => runOps s1 (body p)
+  match dropFrom s2 p with
+  | .error e => observe { d with st := s2 } ("fault-in-destructor:" ++ statusStr e)
+  | .ok s3 =>
+    match err with
+    | none => observe { d with st := s3 } "ok"
+    | some "bad-op" => (d, "bad-op")
+    | some e => observe { d with st := s3 } e
+
+/-- a new object (handle `k`) built by `mk p` as the LAST of the objects it appends; the ones before it are
+    temporaries (a by-value parameter) destroyed afterwards; if something throws no object comes to exist -/
+def newVia (d : DSt) (k : Nat) (mk : Nat → List Op) : DSt × String :=
+  let p := d.st.pool.length
+  let ops := mk p
+  let (s1, e1) := runOps d.st ops
+  match e1 with
+  | some e =>
+    match dropFrom s1 p with
+    | .error e' => observe { d with st := s1 } ("fault-in-destructor:" ++ statusStr e')
+    | .ok s2 => if e = "bad-op" then (d, "bad-op") else observe { d with st := s2 } e
+  | none =>
+    -- destroy the temporaries p .. (last-1), last first; the result slides down to position p
+    let ntemp := s1.pool.length - p - 1
+    let r := (List.range ntemp).foldl (fun (acc : Except Err St) i =>
+      match acc with
       | .error e => .error e
-  match go d.st mk with
-  | .error .badOp => (d, "bad-op")
-  | .error e => observe d (statusStr e)
-  | .ok s1 =>
-    -- run the body op by op, remembering the last good state (an exception unwinds to here)
-    let rec body' (s : St) : List Op → St × Option Err
-      | [] => (s, none)
-      | op :: ops => match step s op with
-        | .ok s' => body' s' ops
-        | .error e => (s, some e)
-    let (s2, err) := body' s1 (body p)
-    match step s2 (.destroy p) with
-    | .error e => observe { d with st := s2 } ("fault-in-destructor:" ++ statusStr e)
-    | .ok s3 =>
-      match err with
-      | none => observe { d with st := s3 } "ok"
-      | some .badOp => (d, "bad-op")
-      | some e => observe { d with st := s3 } (statusStr e)
+      | .ok s2 => step s2 (.destroy (p + ntemp - 1 - i))) (.ok s1)
+    match r with
+    | .error e => observe { d with st := s1 } ("fault-in-destructor:" ++ statusStr e)
+    | .ok s2 => observe { d with st := s2, handles := d.handles ++ [k] } "ok"
+
+/-- extents `make<X>(n, v0)` / `byval_resize(x, n)` use for an object of each kind -/
+def dims1 (k : Kind) (n : Int) : Int × Int :=
+  match k with
+  | .mat => (n, 2)
+  | _ => (n, 0)
+
+def splitCmd (c : String) : Option (String × String) :=
+  ["", "link", "ac", "am", "fn", "fnv", "amfn", "amfnv"].findSome? (fun pre =>
+    if c.startsWith pre then
+      let rest := (c.drop pre.length).toString
+      if viewNames.contains rest then some (pre, rest) else none
+    else none)
+
+/-- relocate the elements of a std::vector that grows: each is copy-constructed into the new block, then the old
+    ones are destroyed -/
+def relocate (d : DSt) (hs : List Nat) : Option DSt :=
+  let d1 := hs.foldl (fun (acc : Option DSt) h =>
+    match acc with
+    | none => none
+    | some d =>
+      match posOf d h with
+      | none => none
+      | some p => match step d.st (.copyCtor p) with
+        | .ok s' => some { d with st := s', handles := d.handles ++ [h + 1000000] }
+        | .error _ => none) (some d)
+  hs.foldl (fun (acc : Option DSt) h =>
+    match acc with
+    | none => none
+    | some d =>
+      match posOf d h with
+      | none => none
+      | some p => match step d.st (.destroy p) with
+        | .ok s' =>
+          let hs' := (d.handles.eraseIdx p).map (fun x => if x = h + 1000000 then h else x)
+          some { d with st := s', handles := hs' }
+        | .error _ => none) d1
+
+def endAll (d : DSt) : DSt × Bool :=
+  -- the std::vectors are cleared first (kind order, elements first to last), then the pool by ascending handle
+  let order := d.bags.flatten ++ (d.handles.filter (fun h => !inBag d h)).mergeSort (fun a b => a ≤ b)
+  order.foldl (fun (acc : DSt × Bool) k =>
+    match posOf acc.1 k with
+    | some p => match step acc.1.st (.destroy p) with
+      | .ok s' => ({ acc.1 with st := s', handles := acc.1.handles.eraseIdx p }, acc.2)
+      | .error _ => (acc.1, false)
+    | none => (acc.1, false)) ({ d with bags := [[], [], [], [], []], caps := [0, 0, 0, 0, 0] }, true)
+
+/-- `<form><fn> x b args…`: a view of `b` constructed (form "", "fn", "fnv"), linked to, or assigned to `x` -/
+def viewCmd (d : DSt) (c : String) (a : List Int) : DSt × String :=
+  let bad : DSt × String := (d, "bad-op")
+  let skip : DSt × String := (d, "skip-dangling")
+  match splitCmd c, a with
+  | some (form, fn), x :: b :: rest =>
+    match parseView fn rest, nat? b >>= posOf d with
+    | some f, some pb =>
+      match d.st.pool[pb]? with
+      | none => bad
+      | some ob =>
+        if !viewOk d.st ob f then bad else
+        if form = "" ∨ form = "fn" ∨ form = "fnv" then
+          if (form = "fn" ∨ form = "fnv") ∧ fn ≠ "sl" then bad else
+          match nat? x with
+          | some k =>
+            if (posOf d k).isSome then bad
+            else if form = "fnv" then newVia d k (fun p => [.copyCtor pb, .view p f])
+            else doNew d k (.view pb f)
+          | none => bad
+        else
+          match nat? x >>= posOf d with
+          | none => bad
+          | some px =>
+            if (form = "amfn" ∨ form = "amfnv") ∧ fn ≠ "sl" then bad else
+            if form = "link" then withTemp d (fun _ => [.view pb f]) (fun p => [.link px p])
+            else if !(usableAt d px && usableAt d pb) then skip
+            else if form = "ac" then withTemp d (fun _ => [.view pb f]) (fun p => [.assignCopy px p])
+            else if form = "amfnv" then withTemp d (fun p => [.copyCtor pb, .view p f]) (fun p => [.assignMove px (p + 1)])
+            else withTemp d (fun _ => [.view pb f]) (fun p => [.assignMove px p])
+    | _, _ => bad
+  | _, _ => bad
 
 def stepI (d : DSt) (c : String) (a : List Int) : DSt × String :=
   let bad : DSt × String := (d, "bad-op")
@@ -162,92 +348,87 @@ def stepI (d : DSt) (c : String) (a : List Int) : DSt × String :=
     match nat? x >>= xposOf d with
     | some (px, _) => doOp d (.xend px)
     | none => bad
-  | "new", [k, n, v0] =>
+  | "newm", [k, n0, n1, v0] =>
     match nat? k with
-    | some k => if (posOf d k).isSome ∨ n < 0 ∨ n > 16 then bad else doNew d k (.new n v0)
-    | none => bad
-  | "newd", [k] =>
-    match nat? k with
-    | some k => if (posOf d k).isSome then bad else doNew d k .newEmpty
+    | some k => if (posOf d k).isSome ∨ n0 < -3 ∨ n0 > 8 ∨ n1 < -3 ∨ n1 > 8 then bad else doNew d k (.new .mat n0 n1 v0)
     | none => bad
   | "ext", [k, x, off, n] =>
-    match nat? k, nat? x >>= xposOf d, nat? off, nat? n with
-    | some k, some (px, false), some off, some n =>
+    match nat? k, nat? x >>= xposOf d, nat? off with
+    | some k, some (px, false), some off =>
       match d.st.exts[px]? with
-      | some e => if (posOf d k).isSome ∨ off + n > e.vals.length ∨ off ≥ e.vals.length then bad
+      | some e => if (posOf d k).isSome ∨ n < -3 ∨ (off : Int) + n > e.vals.length ∨ off ≥ e.vals.length then bad
                   else doNew d k (.newExternal px off n)
       | none => bad
-    | _, _, _, _ => bad
+    | _, _, _ => bad
+  | "extfn", [k, x, off, n] =>
+    match nat? k, nat? x >>= xposOf d, nat? off with
+    | some k, some (px, false), some off =>
+      match d.st.exts[px]? with
+      | some e => if (posOf d k).isSome ∨ n < -3 ∨ (off : Int) + n > e.vals.length ∨ off ≥ e.vals.length then bad
+                  else doNew d k (.newExternal px off n)
+      | none => bad
+    | _, _, _ => bad
   | "fsl", [k, x, lo, hi] =>
     match nat? k, nat? x >>= xposOf d, nat? lo, nat? hi with
     | some k, some (px, true), some lo, some hi =>
-      if (posOf d k).isSome ∨ hi > 3 ∨ lo > hi then bad else doNew d k (.newExternal px lo (hi - lo + 1))
+      if (posOf d k).isSome ∨ hi > 3 ∨ lo > hi then bad else doNew d k (.newExternal px lo ((hi - lo + 1 : Nat) : Int))
     | _, _, _, _ => bad
   | "soft", [k, b] =>
     match nat? k, nat? b >>= posOf d with
     | some k, some pb => if (posOf d k).isSome then bad else doNew d k (.softLink pb)
     | _, _ => bad
-  | "sl", [k, b, lo, hi, st] =>
-    match nat? k, nat? b >>= posOf d with
-    | some k, some pb =>
-      if (posOf d k).isSome ∨ !sliceOk d pb lo hi st then bad else doNew d k (.slice pb lo.toNat hi.toNat st.toNat)
-    | _, _ => bad
   | "link", [x, b] =>
     match nat? x >>= posOf d, nat? b >>= posOf d with
     | some px, some pb => doOp d (.link px pb)
     | _, _ => bad
-  | "linksl", [x, b, lo, hi, st] =>
-    match nat? x >>= posOf d, nat? b >>= posOf d with
-    | some px, some pb =>
-      if !sliceOk d pb lo hi st then bad else
-      withTemp d [.slice pb lo.toNat hi.toNat st.toNat] (fun p => [.link px p])
-    | _, _ => bad
-  | "acsl", [x, b, lo, hi, st] =>
-    match nat? x >>= posOf d, nat? b >>= posOf d with
-    | some px, some pb =>
-      if !sliceOk d pb lo hi st then bad else
-      if !(usableAt d px && usableAt d pb) then skip else
-      withTemp d [.slice pb lo.toNat hi.toNat st.toNat] (fun p => [.assignCopy px p])
-    | _, _ => bad
-  | "amsl", [x, b, lo, hi, st] =>
-    match nat? x >>= posOf d, nat? b >>= posOf d with
-    | some px, some pb =>
-      if !sliceOk d pb lo hi st then bad else
-      if !(usableAt d px && usableAt d pb) then skip else
-      withTemp d [.slice pb lo.toNat hi.toNat st.toNat] (fun p => [.assignMove px p])
-    | _, _ => bad
   | "amext", [x, e, off, n] =>
-    match nat? x >>= posOf d, nat? e >>= xposOf d, nat? off, nat? n with
-    | some px, some (pe, false), some off, some n =>
+    match nat? x >>= posOf d, nat? e >>= xposOf d, nat? off with
+    | some px, some (pe, false), some off =>
       match d.st.exts[pe]? with
-      | some eb => if off + n > eb.vals.length ∨ off ≥ eb.vals.length then bad else
+      | some eb => if n < -3 ∨ (off : Int) + n > eb.vals.length ∨ off ≥ eb.vals.length ∨ kindAt d px ≠ some .vec then bad else
                    if !usableAt d px then skip else
-                   withTemp d [.newExternal pe off n] (fun p => [.assignMove px p])
+                   withTemp d (fun _ => [.newExternal pe off n]) (fun p => [.assignMove px p])
       | none => bad
-    | _, _, _, _ => bad
+    | _, _, _ => bad
+  | "amextfn", [x, e, off, n] =>
+    match nat? x >>= posOf d, nat? e >>= xposOf d, nat? off with
+    | some px, some (pe, false), some off =>
+      match d.st.exts[pe]? with
+      | some eb => if n < -3 ∨ (off : Int) + n > eb.vals.length ∨ off ≥ eb.vals.length ∨ kindAt d px ≠ some .vec then bad else
+                   if !usableAt d px then skip else
+                   withTemp d (fun _ => [.newExternal pe off n]) (fun p => [.assignMove px p])
+      | none => bad
+    | _, _, _ => bad
   | "amfix", [x, e, lo, hi] =>
     match nat? x >>= posOf d, nat? e >>= xposOf d, nat? lo, nat? hi with
     | some px, some (pe, true), some lo, some hi =>
-      if hi > 3 ∨ lo > hi then bad else
+      if hi > 3 ∨ lo > hi ∨ kindAt d px ≠ some .vec then bad else
       if !usableAt d px then skip else
-      withTemp d [.newExternal pe lo (hi - lo + 1)] (fun p => [.assignMove px p])
+      withTemp d (fun _ => [.newExternal pe lo ((hi - lo + 1 : Nat) : Int)]) (fun p => [.assignMove px p])
     | _, _, _, _ => bad
   | "amfresh", [x, n, v0] =>
     match nat? x >>= posOf d with
-    | some px => if n < 0 ∨ n > 16 then bad else
-                 if !usableAt d px then skip else
-                 withTemp d [.new n v0] (fun p => [.assignMove px p])
+    | some px =>
+      match kindAt d px with
+      | some k => if n < 0 ∨ n > 8 then bad else
+                  if !usableAt d px then skip else
+                  withTemp d (fun _ => [.new k (dims1 k n).1 (dims1 k n).2 v0]) (fun p => [.assignMove px p])
+      | none => bad
     | none => bad
   | "fnrs", [b, n] =>
     match nat? b >>= posOf d with
-    | some pb => if n < 0 ∨ n > 16 then bad else withTemp d [.copyCtor pb] (fun p => [.resize p n 0])
+    | some pb =>
+      match kindAt d pb with
+      | some k => if n < -2 ∨ n > 8 then bad else
+                  withTemp d (fun _ => [.copyCtor pb]) (fun p => [.resize p (!k.isArray) (dims1 k n).1 (dims1 k n).2 0])
+      | none => bad
     | none => bad
   | "fnw", [b, i, v] =>
     match nat? b >>= posOf d, nat? i with
     | some pb, some i =>
       match d.st.pool[pb]? with
-      | some ob => if i ≥ ob.len then bad else
-                   if !usableAt d pb then skip else withTemp d [.copyCtor pb] (fun p => [.write p i v])
+      | some ob => if i ≥ (cells ob).length then bad else
+                   if !usableAt d pb then skip else withTemp d (fun _ => [.copyCtor pb]) (fun p => [.write p i v])
       | none => bad
     | _, _ => bad
   | "clr", [x] =>
@@ -255,30 +436,90 @@ def stepI (d : DSt) (c : String) (a : List Int) : DSt × String :=
     | some px => doOp d (.clear px)
     | none => bad
   | "del", [x] =>
-    match nat? x >>= posOf d with
-    | some px =>
+    match nat? x, nat? x >>= posOf d with
+    | some k, some px =>
+      if inBag d k then bad else
       match step d.st (.destroy px) with
       | .ok s' => observe { d with st := s', handles := d.handles.eraseIdx px } "ok"
       | .error .badOp => bad
       | .error e => observe d (statusStr e)
-    | none => bad
+    | _, _ => bad
   | "w", [x, i, v] =>
     match nat? x >>= posOf d, nat? i with
     | some px, some i =>
       match d.st.pool[px]? with
-      | some ox => if i ≥ ox.len then bad else
+      | some ox => if i ≥ (cells ox).length then bad else
                    if !usableAt d px then skip else doOp d (.write px i v)
       | none => bad
     | _, _ => bad
+  | "swp", [x, b] =>
+    match nat? x >>= posOf d, nat? b >>= posOf d with
+    | some px, some pb => doOp d (.swap px pb)
+    | _, _ => bad
+  | "stdswp", [x, b] =>
+    -- std::swap: `X tmp(std::move(a)); a = std::move(b); b = std::move(tmp);` (no move constructor: tmp shares)
+    match nat? x >>= posOf d, nat? b >>= posOf d with
+    | some px, some pb =>
+      if kindAt d px ≠ kindAt d pb then bad else
+      if !(usableAt d px && usableAt d pb) then skip else
+      withTemp d (fun _ => [.copyCtor px]) (fun p => [.assignMove px pb, .assignMove pb p])
+    | _, _ => bad
+  | "sum", [k, b, c2] =>
+    match nat? k, nat? b >>= posOf d, nat? c2 >>= posOf d with
+    | some k, some pb, some pc =>
+      if (posOf d k).isSome ∨ kindAt d pb ≠ kindAt d pc ∨ ¬ (kindAt d pb = some .vec ∨ kindAt d pb = some .avec) then bad else
+      if !(usableAt d pb && usableAt d pc) then skip else doNew d k (.newSum pb pc)
+    | _, _, _ => bad
+  | "amsum", [x, b, c2] =>
+    match nat? x >>= posOf d, nat? b >>= posOf d, nat? c2 >>= posOf d with
+    | some px, some pb, some pc =>
+      if kindAt d px ≠ kindAt d pb ∨ kindAt d pb ≠ kindAt d pc ∨ ¬ (kindAt d pb = some .vec ∨ kindAt d pb = some .avec) then bad else
+      if !(usableAt d px && usableAt d pb && usableAt d pc) then skip else
+      withTemp d (fun _ => [.newSum pb pc]) (fun p => [.assignMove px p])
+    | _, _, _ => bad
+  | "vpush", [k, b] =>
+    match nat? k, nat? b >>= posOf d with
+    | some k, some pb =>
+      match kindAt d pb with
+      | some kd =>
+        if (posOf d k).isSome then bad else
+        let ki := kindIdx kd
+        let bag := d.bags.getD ki []
+        let cap := d.caps.getD ki 0
+        -- the new element is constructed first, then (if the block is full) the old ones are relocated
+        match step d.st (.copyCtor pb) with
+        | .error .badOp => bad
+        | .error e => observe d (statusStr e)
+        | .ok s' =>
+          let d1 : DSt := { d with st := s', handles := d.handles ++ [k] }
+          let (d2, cap') := if bag.length = cap then
+              (relocate d1 bag, if cap = 0 then 1 else 2 * cap)
+            else (some d1, cap)
+          match d2 with
+          | none => observe d "fault"
+          | some d2 => observe { d2 with bags := d2.bags.set ki (bag ++ [k]), caps := d2.caps.set ki cap' } "ok"
+      | none => bad
+    | _, _ => bad
+  | "vpop", [k] =>
+    match nat? k, nat? k >>= posOf d with
+    | some k, some pk =>
+      match kindAt d pk with
+      | some kd =>
+        let ki := kindIdx kd
+        let bag := d.bags.getD ki []
+        if bag.getLast? ≠ some k then bad else
+        match step d.st (.destroy pk) with
+        | .ok s' => observe { d with st := s', handles := d.handles.eraseIdx pk, bags := d.bags.set ki bag.dropLast } "ok"
+        | .error .badOp => bad
+        | .error e => observe d (statusStr e)
+      | none => bad
+    | _, _ => bad
+  | "failnext", [k] =>
+    match nat? k with
+    | some k => if k > 6 then bad else doOp d (.failNext k)
+    | none => bad
   | "end", [] =>
-    -- delete every live array, ascending handle
-    let order := d.handles.mergeSort (fun a b => a ≤ b)
-    let d' := order.foldl (fun (acc : DSt × Bool) k =>
-      match posOf acc.1 k with
-      | some p => match step acc.1.st (.destroy p) with
-        | .ok s' => ({ acc.1 with st := s', handles := acc.1.handles.eraseIdx p }, acc.2)
-        | .error _ => (acc.1, false)
-      | none => (acc.1, false)) (d, true)
+    let d' := endAll d
     observe d'.1 (if d'.2 then "ok" else "fault")
   | _, [k, b] =>
     if c = "cp" ∨ c = "cpc" ∨ c = "cpm" then
@@ -288,20 +529,73 @@ def stepI (d : DSt) (c : String) (a : List Int) : DSt × String :=
     else if c = "ac" ∨ c = "am" ∨ c = "amfn" ∨ c = "amdup" then
       match nat? k >>= posOf d, nat? b >>= posOf d with
       | some px, some pb =>
-        if !(usableAt d px && usableAt d pb) then skip else
-        if c = "ac" then doOp d (.assignCopy px pb)
-        else if c = "am" then doOp d (.assignMove px pb)
-        else if c = "amfn" then withTemp d [.copyCtor pb] (fun p => [.assignMove px p])
-        else withTemp d [.newEmpty, .assignCopy d.st.pool.length pb] (fun p => [.assignMove px p])
+        match kindAt d px, kindAt d pb with
+        | some ka, some kb =>
+          if ka ≠ kb then bad else
+          if !(usableAt d px && usableAt d pb) then skip else
+          if c = "ac" then doOp d (.assignCopy px pb)
+          else if c = "am" then doOp d (.assignMove px pb)
+          else if c = "amfn" then withTemp d (fun _ => [.copyCtor pb]) (fun p => [.assignMove px p])
+          else withTemp d (fun p => [.newEmpty ka, .assignCopy p pb]) (fun p => [.assignMove px p])
+        | _, _ => bad
       | _, _ => bad
-    else bad
-  | _, [x, n, v0] =>
-    if c = "rs" ∨ c = "rsi" then
-      match nat? x >>= posOf d with
-      | some px => if n > 16 ∨ n < -4 then bad else doOp d (.resize px n v0)
-      | none => bad
-    else bad
-  | _, _ => bad
+    else viewCmd d c a
+  | _, _ =>
+    -- creation with a kind suffix
+    if c.startsWith "newd" then
+      match kindOfSuffix (c.drop 4).toString, a with
+      | some kd, [k] =>
+        match nat? k with
+        | some k => if (posOf d k).isSome then bad else doNew d k (.newEmpty kd)
+        | none => bad
+      | _, _ => bad
+    else if c.startsWith "newfn" then
+      -- k := new X(make<X>(n, v0)): a function returning a local array by value
+      match kindOfSuffix (c.drop 5).toString, a with
+      | some kd, [k, n, v0] =>
+        match nat? k with
+        | some k => if (posOf d k).isSome ∨ n < -3 ∨ n > 8 then bad
+                    else doNew d k (.new kd (dims1 kd n).1 (dims1 kd n).2 v0)
+        | none => bad
+      | _, _ => bad
+    else if c.startsWith "new" then
+      match kindOfSuffix (c.drop 3).toString, a with
+      | some kd, [k, n, v0] =>
+        match nat? k with
+        | some k => if kd = .mat ∨ (posOf d k).isSome ∨ n < -3 ∨ n > 16 then bad else doNew d k (.new kd n 0 v0)
+        | none => bad
+      | _, _ => bad
+    else if c = "rs" ∨ c = "rsi" then
+      match a with
+      | [x, n, v0] =>
+        match nat? x >>= posOf d with
+        | some px =>
+          match kindAt d px with
+          | some .mat => bad
+          | some kd =>
+            if n > 16 ∨ n < -4 then bad
+            else if kd.isArray then doOp d (.resize px (c = "rsi") n 0 v0)
+            else doOp d (.resize px (c = "rsi") n n v0)        -- SpecialMatrix: rs = resize(n,n), rsi = resize(n)
+          | none => bad
+        | none => bad
+      | _ => bad
+    else if c = "rs2" ∨ c = "rsi2" then
+      match a with
+      | [x, n0, n1, v0] =>
+        match nat? x >>= posOf d with
+        | some px =>
+          match kindAt d px with
+          | some .vec => bad
+          | some .avec => bad
+          | some kd =>
+            if n0 > 8 ∨ n0 < -4 ∨ n1 > 8 ∨ n1 < -4 then bad
+            else if kd.isArray then doOp d (.resize px (c = "rsi2") n0 n1 v0)
+            else doOp d (.resize px false n0 n1 v0)            -- SpecialMatrix::resize(dim0, dim1)
+          | none => bad
+        | none => bad
+      | _ => bad
+    else
+    viewCmd d c a
 
 def step (d : DSt) (ws : List String) : DSt × String :=
   match ws with
